@@ -4,6 +4,7 @@ mod common;
 use affinitree::linalg::affine::Polytope;
 use affinitree::pwl::afftree::AffTree;
 use common::*;
+use affinitree::pwl::node::NodeState;
 use std::panic::AssertUnwindSafe;
 
 fn sx_polys(ps: &[Polytope]) -> String {
@@ -41,6 +42,20 @@ fn one_case(r: &mut Rng, id: usize, out: &mut String) {
                 }
                 t.update_node(d, p).unwrap();
             }
+        }
+    }
+    // the traversal is a function of the links alone: cached feasibility states (here arbitrary ones, also Infeasible
+    // on inner nodes, as an earlier elimination leaves on a last remaining child) must not change what it yields
+    if r.chance(1, 3) {
+        let idxs: Vec<usize> = t.tree.node_indices().collect();
+        for i in idxs {
+            let st = match r.below(5) {
+                0 | 1 => NodeState::Infeasible,
+                2 => NodeState::Feasible,
+                3 => NodeState::FeasibleWitness(vec![gen_point(r, n)]),
+                _ => NodeState::Indeterminate,
+            };
+            t.tree.node_value_mut(i).unwrap().state = st;
         }
     }
     let size = t.len();
